@@ -73,7 +73,7 @@ PLANS["C07"] = {
     "rule": "random resize cases on the six alpha pixel types (transparent stripes, islands, borders, single pixels, all-zero, low alpha) "
             "with alpha handling on; each run three times per back-end: source A, source B = A with other colours under alpha = 0, and A "
             "with alpha handling off; relations (i) A==B results, (ii) zero alpha => zero colour, (iii) opaque source == alpha-off, "
-            "(iv) alpha channel == plain resampling (alpha handling off), (vii) alpha channel == the alpha plane resized alone as a one-channel image of the same component type, (v) non-alpha types unaffected, (vi) alpha-aware resize == multiply_alpha -> plain resize -> "
+            "(iv) alpha channel == plain resampling (alpha handling off), (ii)+(vii) again on a second frame written into the same buffer and resized by the same Resizer, (vii) alpha channel == the alpha plane resized alone as a one-channel image of the same component type, (v) non-alpha types unaffected, (vi) alpha-aware resize == multiply_alpha -> plain resize -> "
             "divide_alpha bit for bit; non-trivial = source has both transparent and "
             "non-transparent pixels; geometries where dst size == integer crop (C12: exact copy) are excluded and counted",
     "assumptions": CONV_ASSUME + ["colours under zero alpha are finite (NaN*0 is NaN in any implementation)"],
